@@ -185,3 +185,10 @@ MUTANTS += [
     dict(property='C17', name='distances stored for the next particle (off by one)', file=ABCF, old="                 self.res[i], \n                 self.dist[i]) = self._perform_generation(generation=g,", new="                 self.res[i], \n                 self.dist[(i + 1) % self.N]) = self._perform_generation(generation=g,"),
     dict(property='C17', name='every generation uses the first tolerance of the list', file=ABCF, old="        for g in range(rerun,self.G+rerun):\n            tolerance = self.get_tolerance(g-rerun)", new="        for g in range(rerun,self.G+rerun):\n            tolerance = self.get_tolerance(0)"),
 ]
+MUTANTS += [
+    dict(property='C11', name='one limit per declared entry, not per state (original defect)', file=BASEF, old="                self._state_lims[n_before:] = [lim]*(len(self._stateList) - n_before)", new="                self._state_lims.append(lim)"),
+    dict(property='C11', name='states added later through the setter get no limit', file=BASEF, old="        if hasattr(self, \"_state_lims\"):\n            self._state_lims += [(0, None)]*(len(self._stateList) - len(self._state_lims))", new="        if False:\n            self._state_lims += [(0, None)]*(len(self._stateList) - len(self._state_lims))"),
+    dict(property='C11', name='undeclared limits default to (None, None)', file=BASEF, old="                            lim_list.append( (0, None) )   # We assume that the minimum value of each variable is zero", new="                            lim_list.append( (None, None) )   # We assume that the minimum value of each variable is zero"),
+    dict(property='C01', name='_getEvalParam puts the parameters before the time', file=DETF, old="        return eval_param + self._paramValue", new="        return eval_param[:-1] + self._paramValue + eval_param[-1:]"),
+    dict(property='C06', name='constructor stores the times with t0 prepended as observation times', file=BLF, old="        self._observeT = t.copy()", new="        self._observeT = np.insert(t, 0, t0)"),
+]
